@@ -202,6 +202,9 @@ class QCow2(AlignedStream):
     def _read(self, offset: int, length: int) -> bytes:
         result = []
 
+        # The stream may ask for a full aligned chunk that runs past the end of the disk
+        length = min(length, self.size - offset)
+
         for sc_type, read_offset, run_offset, run_length in self._yield_runs(offset, length):
             unalloc_zeroed = sc_type in UNALLOCATED_SUBCLUSTER_TYPES and not self.has_backing_file
 
